@@ -136,6 +136,9 @@ SetNavNode(n) ==
   /\ IF n \in Nodes THEN pos' = n /\ stack' \in {<<>>, stack, Push} /\ Ret("set_navigation_node", "ok")
      ELSE UNCHANGED <<pos, stack>> /\ Ret("set_navigation_node", "err")
   /\ UNCHANGED <<ready, lang, code, highlight, expr, markers, table, file, checkAll, repointVer>>
+SetNavNodeUnknown ==        \* an id that no expression has
+  /\ ready /\ expr # NoExpr /\ Ret("set_navigation_node", "err")
+  /\ UNCHANGED <<ready, lang, code, highlight, expr, pos, stack, markers, table, file, checkAll, repointVer>>
 \* with no expression every navigation entry point answers Err and changes nothing
 NoExprErr(op) == /\ ready /\ expr = NoExpr /\ Ret(op, "err")
                  /\ UNCHANGED <<ready, lang, code, highlight, expr, pos, stack, markers, table, file, checkAll, repointVer>>
@@ -165,7 +168,7 @@ Next == \/ SetRulesDir
         \/ \E e \in Exprs, wf \in BOOLEAN : SetMathML(e, wf)
         \/ \E k \in Kinds : Getter(k) \/ GetterNoExpr(k)
         \/ \E n \in UNION {NodesOf[e] : e \in Exprs} : Move(n) \/ SetNavNode(n) \/ GoToMarker(n)
-        \/ MoveBack \/ SetMarker
+        \/ MoveBack \/ SetMarker \/ SetNavNodeUnknown
         \/ \E f \in BOOLEAN : Route(f)
         \/ \E k \in Kinds : \E x \in DOMAIN file[k] : Damage(k, x) \/ Repair(k, x)
         \/ \E b \in BOOLEAN : SetCheck(b)
